@@ -721,6 +721,19 @@ func dischargeSlice(fn *ssa.Function, x *ssa.Slice) (string, string, bool, bool)
 	r := lenOfAt(x.X, blk)
 	need := int64(0)
 	okShape := true
+	// n := copy(dst, src) satisfies 0 ≤ n ≤ len(dst): dst[:n], dst[n:], dst[:n:n] are in range
+	{
+		isCopyInto := func(e ssa.Value) bool {
+			call, ok := e.(*ssa.Call)
+			return ok && callName(&call.Call) == "builtin:copy" && call.Call.Args[0] == x.X
+		}
+		lowOK := x.Low == nil || isCopyInto(x.Low)
+		highOK := x.High == nil || isCopyInto(x.High)
+		maxOK := x.Max == nil || isCopyInto(x.Max) && x.Max == x.High
+		if lowOK && highOK && maxOK && (x.Low != nil || x.High != nil) && !(x.Low != nil && x.High != nil) {
+			return "slice", "bounded by the count copy() reported for the same destination", true, true
+		}
+	}
 	// s[:i+k], s[i+k:] with i the position found by a search in s
 	if x.Max == nil && (x.Low == nil) != (x.High == nil) {
 		e := x.Low
